@@ -218,6 +218,32 @@ def r27_6(ctx, rep):
         bad = bad or cfg.path(a.id, it.id, avoid=through)
     rep.ob(R, site, "every directory given is searched", bool(dir_assumes) and bool(through) and bad is None,
            "a path that is a directory can be passed over without being globbed", path=cfg.describe(bad) if bad else "")
+    every_globbed_file_listed(ctx, rep, R)
+
+
+def every_globbed_file_listed(ctx, rep, R):
+    """list_modelica_files: every path the glob over a given directory yields is appended to the result — on every iteration"""
+    from ..cfg import CFG, iteration_skips
+    fn = ctx.func(CLI, "list_modelica_files", R)
+    site = CLI + ":list_modelica_files"
+    cfg = CFG(fn, R)
+    gl = [lp for lp in walk_local(fn) if isinstance(lp, ast.For) and any(isinstance(c.func, ast.Attribute) and c.func.attr in ("glob", "rglob") for c in calls(lp.iter))
+          and isinstance(lp.target, ast.Name)]
+    comp = [c for c in ast.walk(fn) if isinstance(c, (ast.ListComp, ast.GeneratorExp)) and any(
+        isinstance(x.func, ast.Attribute) and x.func.attr in ("glob", "rglob") for g in c.generators for x in calls(g.iter))]
+    if not gl and not comp:
+        raise MechanismMissing(R, "the loop over the files a directory's glob yields was not found in list_modelica_files")
+    for lp in gl:
+        v = lp.target.id
+        w = iteration_skips(cfg, lp, lambda x: x.kind == "stmt" and any(isinstance(c.func, ast.Attribute) and c.func.attr in ("append", "add") and c.args
+                                                                         and is_name(c.args[0], v) for c in calls(x.ast)))
+        rep.ob(R, site, "every file the search of a directory finds is listed", w is None,
+               "an iteration over the files found below a given directory can end without the file being added to the list: what the filter goes by "
+               "(the spelling of the path, a name seen before) does not make the file any less part of what the user asked to compile",
+               path=cfg.describe(w) if w else "")
+    for c in comp:
+        rep.ob(R, site, "every file the search of a directory finds is listed", not any(g.ifs for g in c.generators),
+               "the comprehension over the glob filters the files (`%s`)" % norm(c)[:80])
 
 
 # -- seeded variants ---------------------------------------------------------
